@@ -12,10 +12,10 @@ OFFDT = ["int64", "int32", "int16", "int8", "uint8", "uint8"]      # dtypes of t
 
 
 def mc_constants(*, dur, E0, vals, pdty, kinds, dt=4, incl=False, kind0="none", dty0="f", kmul=2, tols=(0,),
-                 offs=(0, 1), dtset=(4,), durset=(8,), esizes=(1,), depth=100):
+                 offs=(0, 1), dtset=(4,), durset=(8,), esizes=(1,), depth=100, taunear=()):
     return dict(E0=E0, Kind0=kind0, Dty0=dty0, Dt0=dt, Dur0=dur, Incl0=incl, Vals=set(vals), PDty=set(pdty),
                 OpKinds=set(kinds), KMul=kmul, Tols=set(tols), Offs=set(offs), DtSet=set(dtset),
-                DurSet=set(durset), ESizes=set(esizes), SentP=8, SentN=10, MaxDepth=depth)
+                DurSet=set(durset), ESizes=set(esizes), SentP=8, SentN=10, MaxDepth=depth, TauNear=set(taunear))
 
 
 def run_mc_configs(chk: Check, configs, invariants, workers_each=4, parallel=4, timeout=3000):
